@@ -117,6 +117,53 @@ def record(db, raw, tier: str, seed: int, wd=None):
                     meta.append((d["id"], f"again/{vtag}"))
     dump_all.close()
     dump_other.close()
+    # fast-packet definitions frame by frame through ONE decoder: a message the codec refuses (a field one step beyond its
+    # range), then - under the same sequence counter, and under the next one - a message it accepts.  What comes back for
+    # the accepted payloads is judged like any other observation; under the repeated counter nothing need come back (the
+    # reassembly may take the frames for repeats), but whatever does must be that payload's message.
+    from .. import fastpacket as fp
+    fdec = NMEA2000Decoder()
+    n_after = 0
+    for d in [x for x in db["defs"] if x["decodable"] and x["fast"] == "fast" and x["static"]][:: (1 if tier == "thorough" else 2)]:
+        bad = next((corpus.build_payload(d, {i: c}) for i, f in enumerate(d["fields"]) if f["off"] >= 0 and f["kind"] == "num"
+                    for name, c in corpus.boundary_codes(f) if name in ("hi+1", "sentinel-1")), None)
+        if bad is None:
+            continue
+        good = corpus.build_payload(d, {}, rng)
+
+        def frames_in(payload, q, src=21):
+            out, pos, i = None, 0, 0
+            while pos < len(payload) or i == 0:
+                cap_ = 6 if i == 0 else 7
+                out = fdec.decode_tcp(fp.ebyte_packet(d["pgn"], src, 255, 3, fp.can_data(q, i, len(payload), list(payload[pos:pos + cap_]))))
+                pos += cap_
+                i += 1
+            return out
+        q = d["idx"] % 8
+        try:
+            frames_in(bad, q)
+            refused = False
+        except Exception:                      # noqa: BLE001
+            refused = True
+        if not refused:
+            continue
+        for tag2, qq in (("after-refusal/same-counter", q), ("after-refusal/next-counter", (q + 1) % 8)):
+            try:
+                m2 = frames_in(good, qq)
+            except Exception as e:             # noqa: BLE001
+                m2 = e
+            if isinstance(m2, Exception) or m2 is None:
+                if tag2.endswith("same-counter"):
+                    continue
+                o = {"pgn": d["pgn"], "p": list(good), "ret": "none" if m2 is None else "err",
+                     "hdr": {"pgn": 0, "id": "", "desc": "", "ttl": -1}, "f": [], "err": "" if m2 is None else f"{type(m2).__name__}: {m2}"[:160]}
+            else:
+                o = {"pgn": d["pgn"], "p": list(good), "ret": "msg", "err": ""}
+                o.update(project.pmsg(m2, by_id.get(m2.id), raw_by_id.get(m2.id)))
+            recs.append(o)
+            meta.append((d["id"], tag2))
+            n_after += 1
+    AFTER_REFUSAL[0] = n_after
     # every key of every lookup / bit-lookup table once (the tables are part of the translated database)
     n_tab = 0
     for d, tag, payload in corpus.table_sweep(db, lambda d: d["decodable"]):
@@ -133,6 +180,7 @@ def record(db, raw, tier: str, seed: int, wd=None):
 
 
 TABLE_SWEEP = [0]
+AFTER_REFUSAL = [0]
 
 
 def model(chk: Check, tier: str):
@@ -174,7 +222,7 @@ def bind(chk: Check, tier: str, seed: int):
                           + (f" [{recs[i]['err']}]" if recs[i]["err"] else ""),
                           {"def": meta[i][0], "tag": meta[i][1], "payload": bytes(recs[i]["p"]).hex(), "verdict": v,
                            "observed": recs[i]["f"][v["f"] - 1] if v["f"] > 0 and recs[i]["f"] else None})
-    chk.add(lookup_table_entries_swept=TABLE_SWEEP[0])
+    chk.add(lookup_table_entries_swept=TABLE_SWEEP[0], frame_route_observations_after_a_refused_message=AFTER_REFUSAL[0])
     chk.add(programs=len(progs), disagreements_checked=len(recs), records=len(recs), returned=returned,
             definitions_in_db=len(db["defs"]), traces_validated_against_impl=len(recs))
     for i in (0, len(recs) // 2):
